@@ -48,10 +48,19 @@ func genCloseSpec(seed uint64, tier string) *spec.RunSpec {
 	if tr == "udp" && r.Bool(0.3) {
 		s.Net.DropRate = 0.05 * r.Float()
 	}
+	// a third of the runs in 0-RTT handshake mode, a quarter straight on the multiplexers: there a
+	// client session is still waiting for the open-session response when it is written and closed
+	if r.Bool(0.25) {
+		s.Server.RawMux = true
+	} else if r.Bool(0.4) {
+		for i := range s.Clients {
+			s.Clients[i].NoWait = true
+		}
+	}
 	cs := &spec.CloseSpec{HorizonUs: 120000000}
 	idleChoices := []int64{0, 1000, 300000, 2000000, 4900000, 5100000, 7000000, 12000000, 65000000}
-	profile := r.Pick(0, 0, 1, 2, 3, 4, 5) // 0 plain close, 1 back-pressure, 2 deadlines, 3 stop events, 4 underlay failure, 5 stop/failure under back-pressure
-	s.Profile = fmt.Sprintf("c15-%s-%s", tr, []string{"close", "backpressure", "deadlines", "stop", "failure", "backpressure-stop"}[profile])
+	profile := r.Pick(0, 0, 1, 2, 3, 4, 5, 6) // 0 plain close, 1 back-pressure, 2 deadlines, 3 stop events, 4 underlay failure, 5 stop/failure under back-pressure, 6 one-way use
+	s.Profile = fmt.Sprintf("c15-%s-%s", tr, []string{"close", "backpressure", "deadlines", "stop", "failure", "backpressure-stop", "oneway"}[profile])
 	bpWriterSide := ""
 	for ci, c := range s.Clients {
 		for _, se := range c.Sessions {
@@ -74,6 +83,17 @@ func genCloseSpec(seed uint64, tier string) *spec.RunSpec {
 				bpWriterSide = writerSide
 				add(writerSide, "writer", spec.AOp{Op: "write", N: r.Pick(1, 1, 200, 1400), Count: r.Pick(3000, 4500, 6000)})
 				add(readerSide, "stuck-reader", spec.AOp{Op: "read", N: 64, Count: r.Pick(0, 1, 3)}, spec.AOp{Op: "sleep", Us: 400000000})
+			case 6: // one-way use: one end only writes (never calls Read) and closes; the other end only reads
+				writerSide, readerSide := closer, other
+				nw := r.Pick(0, 1, 1, 3)
+				ops := []spec.AOp{}
+				if nw > 0 {
+					ops = append(ops, spec.AOp{Op: "write", N: r.Pick(1, 100, 1024, 1025, 5000), Count: nw})
+				}
+				ops = append(ops, spec.AOp{Op: "sleep", Us: int64(r.Pick(1, 1000, 30000, 200000, 3000000)) + idle}, spec.AOp{Op: "close"})
+				add(writerSide, "writer-closer", ops...)
+				add(readerSide, "reader", spec.AOp{Op: "read", N: r.Pick(64, 4096), Count: 1000000})
+				add(readerSide, "closer", spec.AOp{Op: "sleep", Us: closeAt + 200000000}, spec.AOp{Op: "close"}) // later than the 3-minute bound for a Read to notice the peer's Close
 			case 2: // deadlines around multi-call reads and writes
 				side := []string{"client", "server"}[r.Intn(2)]
 				oth := map[string]string{"client": "server", "server": "client"}[side]
